@@ -178,6 +178,71 @@ def roundtrip(sym, shape, opts, focus, history=False):
     sym.check("second-dump-identical", again == written)
 
 
+def edited_roundtrip(sym, shape, opts, focus):
+    """a tree that was read from a file is edited through its public attributes - a path kind unset, another set, an image removed and
+    one added, a checksum dropped, scalar fields changed - and written again: the second file says what the edited object says"""
+    try:
+        ti, objs = build(sym, shape, opts, focus)
+        written = ti.dumps()
+    except (ValueError, TypeError):
+        return
+    mid = TreeInfo()
+    mid.loads(written)
+    sym.cover("loaded")
+    spec = SHAPES[shape]
+    uid0 = spec[0][1]
+    v = mid.variants[uid0] if spec[0][2] is None else None
+    want_paths = dict((f, getattr(v.paths, f)) for f in PATH_FIELDS)
+    set_fields = [f for f in PATH_FIELDS if want_paths[f] is not None]
+    unset_fields = [f for f in PATH_FIELDS if want_paths[f] is None]
+    if set_fields:
+        setattr(v.paths, set_fields[0], None)
+        want_paths[set_fields[0]] = None
+    if unset_fields:
+        newp = text(sym, "edit_path", 3, focus, minlen=1)
+        setattr(v.paths, unset_fields[0], newp)
+        want_paths[unset_fields[0]] = newp
+    new_name = text(sym, "edit_name", 3, focus, minlen=1)
+    v.name = new_name
+    new_ts = sym.int("edit_timestamp", 1, 2 ** 53)
+    mid.tree.build_timestamp = new_ts
+    want_images = dict((p, dict(t)) for p, t in mid.images.images.items())
+    for platform in sorted(want_images):
+        if want_images[platform]:
+            gone = sorted(want_images[platform])[0]
+            del mid.images.images[platform][gone]
+            del want_images[platform][gone]
+            added = text(sym, "edit_img", 3, focus, minlen=1)
+            mid.images.images[platform]["added.img"] = added
+            want_images[platform]["added.img"] = added
+            break
+    want_sums = dict(mid.checksums.checksums)
+    if want_sums:
+        gone = sorted(want_sums)[0]
+        del mid.checksums.checksums[gone]
+        del want_sums[gone]
+    try:
+        again = mid.dumps()
+    except (ValueError, TypeError):
+        return
+    sym.cover("rewritten")
+    back = TreeInfo()
+    back.loads(again)
+    sym.check("edited.variant.name", back.variants[uid0].name == new_name)
+    sym.check("edited.build_timestamp", back.tree.build_timestamp == new_ts)
+    for f in PATH_FIELDS:
+        sym.check("edited.paths." + f, sym.same(getattr(back.variants[uid0].paths, f), want_paths[f]))
+    sym.check("edited.images.platforms", sorted(back.images.images.keys()) == sorted(p for p in want_images))
+    for platform in sorted(want_images):
+        if platform in back.images.images:
+            sym.check("edited.images[%s].names" % platform, sorted(back.images.images[platform].keys()) == sorted(want_images[platform].keys()))
+            for name in sorted(want_images[platform]):
+                if name in back.images.images[platform]:
+                    sym.check("edited.images[%s][%s]" % (platform, name), back.images.images[platform][name] == want_images[platform][name])
+    sym.check("edited.checksums.paths", sorted(back.checksums.checksums.keys()) == sorted(want_sums.keys()))
+    sym.check("edited.second-dump-identical", back.dumps() == again)
+
+
 # float timestamps are not symbolic: a pool of representative values (long fractions, tiny and huge magnitudes, negative,
 # shortest-repr corner cases).  Not a solver result; the solver part of this harness is the text fields and disc numbers.
 FLOATS = [1386856788.124593, 0.5, -3.25, 1e+22, 1234567890.0, 12345.678901234, 0.30000000000000004, 1e-09, -4.9e-324,
@@ -250,6 +315,11 @@ def jobs(tier, seed):
                 o2 = dict(o)
                 o2["long_digest"] = True
                 out.append({"harness": "roundtrip", "params": {"shape": shape, "opts": o2, "focus": _focus(shape, o2, k + seed)}, "validate_every": 40})
+    for si, shape in enumerate(SHAPES):
+        if big or (si + seed) % 2 == 0:
+            k = (seed + si * 2) % 12
+            o = _opts(shape, k if _opts(shape, k)["images"] else k + 1)
+            out.append({"harness": "edited_roundtrip", "params": {"shape": shape, "opts": o, "focus": []}, "validate_every": 40})
     for fi in range(len(FLOATS)):
         out.append({"harness": "discinfo_roundtrip", "params": {"numbers": ["ALL", 1, 2, 3][fi % 4], "quoted_ok": False, "fi": fi}})
     return out
@@ -257,13 +327,15 @@ def jobs(tier, seed):
 
 META = {
     "fp_lemma": True,
-    "expected_covers": {"roundtrip": ["written", "reloaded", "rewritten"], "discinfo_roundtrip": ["written", "reloaded"]},
+    "expected_covers": {"roundtrip": ["written", "reloaded", "rewritten"], "edited_roundtrip": ["loaded", "rewritten"], "discinfo_roundtrip": ["written", "reloaded"]},
     "assumptions": [
         "INI text layer: accessor methods of the real parser object are modelled on its own dictionaries (psx/stubs.py); written text is a DocText holding the ordered "
         "sections/options; it can be read back provided every value is representable (single line, no leading/trailing blank) - the property's own restriction",
         "text fields range over printable ASCII; per job two of them (rotating focus set) may contain '%', the others not; values with '%(' are outside the model",
         "build timestamp: integer with |t| <= 2**53 (the int -> text -> float -> int chain is exact there; lemma int_float_roundtrip checked by the C04 thorough run); float timestamps from a pool",
         "option names (image names, checksum paths), variant ids/UIDs, platforms are concrete pool values (incl. mixed case and non-normalised checksum paths); checksum type/value alphanumeric",
+        "edited_roundtrip: a loaded tree has one path kind unset and one set, the variant name and the timestamp changed, an image replaced and a checksum dropped, "
+        "and is written and read again",
         "variant forests from the catalogue in harness/C04.py (top-level variants incl. dashed UID, children, nested children, a child of symbolic type)",
     ],
 }
